@@ -28,6 +28,10 @@ var verifDistQueries = []string{
 	`count(foo) + 1`,
 	`sum(foo)`,
 	`-max(foo)`,
+	// mixtures of a pushed-down part and a part the coordinating engine evaluates itself
+	// over its own storage (which holds the union), in both operand orders
+	`count by (a) (foo) + on(a) group_right clamp_min(foo, 0)`,
+	`clamp_min(foo, 0) + on(a) group_left count by (a) (foo)`,
 }
 
 // verifSameMatrix asserts that two range results are the same set of series and points.
@@ -122,7 +126,9 @@ func VerifH10p() {
 	dopts := Opts{DisableFallback: true, LogicalOptimizers: []logicalplan.Optimizer{logicalplan.DistributedExecutionOptimizer{Endpoints: endpoints}}}
 	dopts.LookbackDelta = sym.DurMs(lookback)
 	dist := New(dopts)
-	got := verifExecRange(dist, &stub.Queryable{}, qs, start, end, step)
+	// the coordinating engine's own storage holds the union (read only by plan parts that
+	// are not pushed down)
+	got := verifExecRange(dist, &stub.Queryable{Ser: union}, qs, start, end, step)
 	// D16: the distributed result may carry extra points (remote results are re-read
 	// through a selector that applies the lookback delta a second time)
 	verifSameMatrix("C10/distributed-equals-central", got, want, "KF-C10-D16", zombie)
